@@ -151,6 +151,10 @@ class C20:
             plan["beta"] = rc.choice(BETAS)
             plan["p_callback"] = rc.choice([0.15, 0.3, 0.5])
             plan["history"] = rc.choice(["consecutive", "consecutive", "any"])
+            # how the object is obtained: the class, the registry's "warmup" entry around a given inner
+            # baseline, or the default "rollout" entry (warm-up around the greedy-rollout baseline, configured
+            # with n_epochs / exp_beta); the inner baseline is the scheduled stub in all three
+            plan["via"] = rc.choice(["class", "class", "registry_warmup", "factory_rollout"])
         return plan
 
     @staticmethod
@@ -386,8 +390,20 @@ def _run_warmup(run):
     n, beta = plan["n_epochs"], plan["beta"]
     scope = "WarmupBaseline"
     inner = _make_stub()
-    with run.guard(scope, "construct"):
-        wb = BL.WarmupBaseline(inner, n_epochs=n, warmup_exp_beta=beta)
+    via = plan.get("via", "class")
+    with run.guard(scope, f"construct ({via})"):
+        if via == "registry_warmup":
+            wb = BL.get_reinforce_baseline("warmup", baseline=inner, n_epochs=n, warmup_exp_beta=beta)
+        elif via == "factory_rollout":
+            wb = BL.get_reinforce_baseline("rollout", n_epochs=n, exp_beta=beta)
+            if not isinstance(wb, BL.WarmupBaseline):
+                run.violate(scope, "warmup_alpha", f"the 'rollout' registry entry returned {type(wb).__name__}, not a "
+                            "warm-up around the rollout baseline", constraint="factory_type")
+                raise StopRun()
+            wb.baseline = inner  # the greedy-rollout part is C16/C17's; here: the warm-up weight and its EMA
+        else:
+            wb = BL.WarmupBaseline(inner, n_epochs=n, warmup_exp_beta=beta)
+    run.probe("warmup_via_" + via)
     ref = R.Warmup(n, beta)
     rd = run.streams.get("data")
     last_epoch = -1
